@@ -51,6 +51,9 @@ def run_chunk(prop, tier, base, indices, keep_digests):
     import gc
     gc.collect()
     gc.freeze()     # everything imported so far is permanent: makes the per-run gc.collect() cheap
+    # workload objects whose finalisation fails on purpose (a generator's clean-up code that raises) are reported by Python through
+    # sys.unraisablehook whenever they happen to be dropped: not part of any verdict, keep the check's output clean
+    sys.unraisablehook = lambda *a: None
     out = {"n": 0, "harness": [], "disturbed": Counter(), "viol": {}, "violcount": Counter(), "probes": Counter(),
            "faults": Counter(), "digests": {}, "sched_digests": set(), "plan_digests": set(), "nontrivial": set(),
            "steps": 0, "sim_s": 0.0, "switches": 0, "preempts": 0, "samples": [], "violating_runs": 0}
